@@ -43,7 +43,7 @@ def gen_smooth_network(rng):
             rx.append({"reactants": [], "products": [rng.choice(SP)], "prop": pr})
             exprs.append(e)
         else:
-            form = rng.choice(["%s*A/(1+B)", "%s*A*B/(2+C)", "%s*exp(-B/4)", "%s*A^2/(9+A^2)"])
+            form = rng.choice(["%s*A/(1+B)", "%s*A*B/(2+C)", "%s*exp(-B/4)", "%s*A^2/(9+A^2)", "%s*(A-2*B)", "%s*(C-A)/(1+B^2)"])
             rate = form % ("k%d" % j)
             rx.append({"reactants": [], "products": [rng.choice(SP)], "prop": {"type": "general", "rate": rate}})
             exprs.append(sympy.sympify(rate.replace("^", "**"), {"A": A, "B": B, "C": C, "k%d" % j: k}))
@@ -65,6 +65,14 @@ def one(ctx, rng):
     sl, pl = M.get_species_list(), M.get_param_list()
     U = np.array(M.py_get_update_array()) + np.array(M.py_get_delay_update_array())
     x = np.array([rng.choice([0.75, 1.0, 2.5, 4.0, 7.5]) for _ in sl])
+    fractional = any(r["prop"]["type"] != "massaction" and float(spec["params"].get(r["prop"].get("n", ""), 1.0)) % 1 for r in spec["reactions"])
+    if not fractional and rng.chance(1, 3):
+        # interior states closer to the boundary than the reach of the stencils (2h = 0.02): the rate laws are smooth across
+        # zero (polynomial, rational, exponential, integer Hill exponents), so the schemes keep their accuracy there
+        x = np.array([rng.choice([0.004, 0.015, 0.5, 1.0, 3.0]) for _ in sl])
+        ctx.count("state_within_stencil_reach_of_boundary")
+    if any(r["prop"]["type"] == "general" and ("(A-2*B)" in r["prop"]["rate"] or "(C-A)" in r["prop"]["rate"]) for r in spec["reactions"]):
+        ctx.count("net_rate_law_" + ("negative" if any(("(A-2*B)" in r["prop"]["rate"] and x[sl.index("A")] < 2 * x[sl.index("B")]) or ("(C-A)" in r["prop"]["rate"] and x[sl.index("C")] < x[sl.index("A")]) for r in spec["reactions"] if r["prop"]["type"] == "general") else "positive"))
     p_before = dict(zip(pl, [float(v) for v in M.get_parameter_values()]))
     # analytic rate equations f = S * rate, from the generator's own description
     f = [sum(int(U[i, j]) * exprs[j] for j in range(len(exprs))) for i in range(len(sl))]
@@ -136,7 +144,7 @@ def replay(ctx, obj):
 
 def describe(ctx):
     rule = ("random smooth networks over 3 species (mass action of order 0..4, four Hill types with integer and fractional exponents, "
-            "general rational / exponential rates), interior states, parameters >= 0.1, one randomly chosen parameter name per scheme, the "
+            "general rational / exponential rates incl. net (signed) rates), interior states incl. states nearer to zero than the stencil reach, parameters >= 0.1, one randomly chosen parameter name per scheme, the "
             "four difference schemes: py_get_jacobian and py_get_sensitivity_to_parameter against sympy-differentiated rate equations "
             "(tolerance 10 x the scheme's bound h^4/30 f5, h^2/6 f3, h/2 f2 + 1e-9), parameter dictionary before/after, and against the "
             "Lean stencils applied to the Lean derivative (2e-10, np.round). distinct = (scheme, propensity types, parameter kind).")
